@@ -442,13 +442,13 @@ func (s *Sess) Step(t *vkit.T, o Op, m vkit.Mode) StepResult {
 
 	vkit.Backdate(s.Root)
 	d0 := vkit.TakeDigest(s.Root)
-	if o.Fault {
-		faultOn(o.FaultAt)
-	}
-	s.Invoke(t, o)
-	if o.Fault {
-		faultOff()
-	}
+	func() {
+		if o.Fault {
+			faultOn(o.FaultAt)
+			defer faultOff() // also when the library panics: the harness must be able to write its witness
+		}
+		s.Invoke(t, o)
+	}()
 	res.Signals = t.Take()
 	res.Got = vkit.Classify(res.Signals)
 	if o.Fault && mutating && res.Got == vkit.Failed {
